@@ -13,7 +13,16 @@ from .. import leanproj, pipeline, corr, malformed, probe, evalcorr
 from ..common import Rng, seed
 from .C01 import random_programs
 
+_ALIAS_FN = ('Die Funktion foo gibt nichts zurück, macht:\n\tDie Zahl z ist 1.\nUnd kann so benutzt werden:\n\t"foo"\n')
 KNOWN_SEEDS = [
+    ("alias-declaration-as-if-body", _ALIAS_FN + 'Wenn wahr, Der Alias "bar" steht für die Funktion foo.\n'),
+    ("alias-declaration-as-else-body", _ALIAS_FN + 'Wenn falsch, foo.\nSonst Der Alias "bar" steht für die Funktion foo.\n'),
+    ("alias-declaration-as-while-body", _ALIAS_FN + 'Solange falsch, Der Alias "bar" steht für die Funktion foo.\n'),
+    ("alias-declaration-as-for-body", _ALIAS_FN + 'Für jede Zahl i von 1 bis 2, Der Alias "bar" steht für die Funktion foo.\n'),
+    ("alias-declaration-as-foreach-body", _ALIAS_FN + 'Für jede Zahl i in (eine Liste, die aus 1, 2 besteht), Der Alias "bar" steht für die Funktion foo.\n'),
+    ("alias-declaration-of-unknown-function-as-if-body", 'Wenn wahr, Der Alias "bar" steht für die Funktion gibtsnicht.\n'),
+    ("directory-import-missing", 'Binde alle Module aus "gibtsnicht" ein.\n'),
+    ("directory-import-recursive-missing", 'Binde rekursiv alle Module aus "gibts/nicht" ein.\n'),
     ("single-parameter-alias", 'Die Funktion f mit dem Parameter text vom Typ Text, gibt einen Text zurück, macht:\n\tGib text zurück.\n'
                                'Und kann so benutzt werden:\n\t"<text>"\nDer Text t ist "a".\n'),
     ("untyped-argument-for-generic-parameter", 'Binde "Duden/HashTabelle" ein.\nDie öffentliche Befehlszeile HauptBefehlszeile ist eine leere Befehlszeile.\n'
@@ -55,7 +64,9 @@ def check(res, tier):
     res.rule = ("all strings of up to %d tokens over a 25-symbol alphabet of lexical classes; per generated program token mutants (delete, "
                 "duplicate, swap, splice, replace, truncate) and byte mutants (random bytes, truncated multi-byte sequences, NUL, 0xFF); "
                 "token mutants of Duden sources; deep nestings (parentheses, unary chains, blocks, list types, operator chains); import "
-                "arrangements (missing file, directory, cycles 1-4, self-import, broken module, odd paths, empty modules): the front end "
+                "arrangements (missing file, directory imports of missing / empty / nested / self-containing directories, cycles 1-4, "
+                "self-import, broken module, odd paths, empty modules); every statement and declaration start, and each of its prefixes, in "
+                "every position where a single statement is expected (bodies of Wenn / Sonst / Wenn aber / Solange / Für / blocks / functions): the front end "
                 "must answer (module or error value), never panic, die or hang") % (2 if quick else 3)
     res.assumptions += ["for the parser, resolver and type checker this is a search over inputs, not a proof (no Lean model of the recursive descent); "
                         "the proved parts are the scanner, the unifier and the import walk"]
